@@ -69,8 +69,20 @@ def make_prior(kind="default", poly_trend=1, n_offsets=0, sigma_K0=30.0, P0_days
     return out
 
 
-def make_data(n=5, layout="short", err="hetero", unit="km/s", t_ref=None, seed=0, n_surveys=1, mixed_units=False, t_ref_scale="tcb", interleave=False, y_from=None):
-    """Returns (data or list of data, plain dict t, y, sig [km/s], t_ref, labels)."""
+def shape_tref(sh, n_offsets):
+    """reference-epoch argument of a data shape: default (earliest epoch) / explicit / 'none' (t_ref=False); single survey only"""
+    if n_offsets or not sh["tref"]:
+        return None
+    return False if sh["tref"] == "none" else (T0 - 3.25)
+
+
+def make_data(n=5, layout="short", err="hetero", unit="km/s", t_ref=None, seed=0, n_surveys=1, mixed_units=False, t_ref_scale="tcb", interleave=False, y_from=None, raw="clean", container="list"):
+    """Returns (data or list of data, plain dict t, y, sig [km/s], t_ref, labels).
+
+    raw="dirty": every RVData is built from epochs in scrambled order with two unusable rows mixed in (NaN velocity at an epoch
+    BEFORE all others, infinite error in the middle) - the documented cleaning + sorting must leave exactly the observations
+    described by the returned dict.  container="dict": several surveys are handed over as a dict whose keys sort like the survey
+    numbers but are inserted in another order."""
     import astropy.units as u
     from astropy.time import Time
     import thejoker as tj
@@ -88,7 +100,7 @@ def make_data(n=5, layout="short", err="hetero", unit="km/s", t_ref=None, seed=0
         # noiseless data generated from the model itself at theta = y_from (P, e, omega, M0): K=7, v0=3 km/s
         from .ref import kepler
 
-        tr0 = float(t.min()) if t_ref is None else float(t_ref)
+        tr0 = float(t.min()) if t_ref is None else (0.0 if t_ref is False else float(t_ref))
         y = 7.0 * kepler.zfunc(t, y_from[0], y_from[1], y_from[2], y_from[3], tr0) + 3.0
     if err == "small":
         sig = 0.02 * (1 + 0.2 * (np.arange(n) % 3))
@@ -105,12 +117,27 @@ def make_data(n=5, layout="short", err="hetero", unit="km/s", t_ref=None, seed=0
     labels = np.zeros(n, dtype=int)
     kw = {}
     tr = float(t.min())
-    if t_ref is not None:
+    if t_ref is False:
+        # documented option: no reference epoch is subtracted -> phases are relative to BMJD 0
+        kw["t_ref"] = False
+        tr = 0.0
+    elif t_ref is not None:
         trT = Time(float(t_ref), format="mjd", scale=t_ref_scale)
         kw["t_ref"] = trT
         tr = float(trT.tcb.mjd)  # the reference epoch is barycentric (TCB) MJD internally, whatever scale it was given in
+    def mk(tt_, yy_, ss_, **kws):
+        if raw == "dirty":
+            m = len(tt_)
+            perm = np.roll(np.arange(m)[::-1], 1)
+            tt2 = np.concatenate([[float(np.min(t)) - 5.0], tt_[perm][: m // 2], [float(np.mean(t)) + 0.123], tt_[perm][m // 2:]])
+            yu, su = yy_.unit, ss_.unit
+            yy2 = np.concatenate([[np.nan], yy_.value[perm][: m // 2], [1.0], yy_.value[perm][m // 2:]]) * yu
+            ss2 = np.concatenate([[1.0], ss_.value[perm][: m // 2], [np.inf], ss_.value[perm][m // 2:]]) * su
+            return tj.RVData(Time(tt2, format="mjd", scale="tcb"), yy2, ss2, **kws)
+        return tj.RVData(Time(tt_, format="mjd", scale="tcb"), yy_, ss_, **kws)
+
     if n_surveys == 1:
-        data = tj.RVData(Time(t, format="mjd", scale="tcb"), y * f * uu, sig * f * uu, **kw)
+        data = mk(t, y * f * uu, sig * f * uu, **kw)
     else:
         # time-disjoint surveys (interleaving is C08's subject): contiguous blocks
         bounds = np.linspace(0, n, n_surveys + 1).astype(int)
@@ -122,13 +149,21 @@ def make_data(n=5, layout="short", err="hetero", unit="km/s", t_ref=None, seed=0
                 # (the first listed survey does not hold the earliest epoch)
                 sl = np.arange(n)[((k + 1) % n_surveys)::n_surveys]
             labels[sl] = k
-            if mixed_units and k % 2 == 1:
+            # (the merged data take the unit of the first source handed over: keep that one in the declared unit -
+            # survey 0 of a list, survey 1 of the dict built below)
+            if mixed_units and k % 2 == (1 if container == "list" else 0):
                 # this survey is delivered in another (equivalent) unit than the first one; errors in yet another
                 uk, fk = (u.m / u.s, 1000.0) if unit == "km/s" else (u.km / u.s, 1.0)
-                data.append(tj.RVData(Time(t[sl], format="mjd", scale="tcb"), y[sl] * fk * uk, (sig[sl] * 1e5) * u.cm / u.s))
+                data.append(mk(t[sl], y[sl] * fk * uk, (sig[sl] * 1e5) * u.cm / u.s))
             else:
-                data.append(tj.RVData(Time(t[sl], format="mjd", scale="tcb"), y[sl] * f * uu, sig[sl] * f * uu))
+                data.append(mk(t[sl], y[sl] * f * uu, sig[sl] * f * uu))
         tr = float(t.min())
+        if container == "dict":
+            # keys sort like the survey numbers (the first key in sorted order is the offset-free survey) but are inserted in
+            # another order, so the merged rows are NOT in sorted-key order
+            keys = ["apogee", "lamost", "weave", "xshooter"][:n_surveys]
+            order = list(range(n_surveys))[1:] + [0]
+            data = {keys[k]: data[k] for k in order}
     return data, dict(t=t, y=y, sig=sig, t_ref=tr, labels=labels, unit=unit, factor=f)
 
 
